@@ -392,6 +392,8 @@ pub struct RunResult {
     pub dtor_expected: u32,
     pub dtor_missing: u32,
     pub churned: u32,
+    /// largest number of simultaneously live threads reached by a `crowd` step
+    pub crowded: u32,
 }
 
 struct Pending {
@@ -1123,6 +1125,54 @@ impl Runner {
         Ok(())
     }
 
+    /// `n` extra threads alive at the same time, all spawned by `tid`.
+    fn do_crowd(&mut self, step: u32, tid: u32, n: u16, m: u8) -> HResult<()> {
+        let mut ids: Vec<u32> = Vec::new();
+        for i in 0..n {
+            if self.res.blocked || !self.threads.contains_key(&tid) {
+                break;
+            }
+            self.churn_counter += 1;
+            let child = 1_000_000 + self.churn_counter;
+            let api = if i % 2 == 0 { Api::Std } else { Api::Builder };
+            self.do_spawn(step, tid, child, api, false)?;
+            if !self.threads.contains_key(&child) {
+                break;
+            }
+            ids.push(child);
+            self.do_simple(step, child, Some((m as u16 + i) as u8 % 8))?;
+        }
+        self.res.crowded = self.res.crowded.max(self.threads.len() as u32);
+        // everybody (the crowd and whoever else is alive and not parked) reads
+        // its own mode back and rounds a witness under it
+        let witness = Op::Round { a: (25, 1), n: 0 };
+        let all: Vec<u32> = self
+            .threads
+            .iter()
+            .filter(|(_, th)| th.pending.is_none())
+            .map(|(t, _)| *t)
+            .collect();
+        for t in all {
+            if self.res.blocked {
+                break;
+            }
+            self.do_simple(step, t, None)?;
+            if self.res.blocked || !self.threads.contains_key(&t) {
+                break;
+            }
+            self.start_op(step, t, &witness, false, &[])?;
+        }
+        for t in ids.into_iter().rev() {
+            if self.res.blocked {
+                break;
+            }
+            if self.threads.contains_key(&t) {
+                self.do_exit(step, t, false)?;
+            }
+        }
+        Ok(())
+    }
+
     fn sweep(&mut self, step: u32) -> HResult<()> {
         let ids: Vec<u32> = self
             .threads
@@ -1184,6 +1234,7 @@ impl Runner {
             Action::Die(op) => self.start_op(ix, tid, op, true, yields),
             Action::Exit { probe_late } => self.do_exit(ix, tid, *probe_late),
             Action::Churn { n, m } => self.do_churn(ix, tid, *n, *m),
+            Action::Crowd { n, m } => self.do_crowd(ix, tid, *n, *m),
             Action::Sweep => unreachable!(),
         }
     }
